@@ -193,7 +193,49 @@ def real_C09(ctx, pexpect, thorough):
     tried += 1
     if st != 42:
         ctx.hit('C09/run', 'run(..., withexitstatus=True) returned status %r for exit(42)' % (st,), {})
+    # run() that stops BEFORE the child's end of file (a callback returns True / the time runs out): the status it hands back is
+    # still the child's fate as the spawn object recorded it - here children that shrug off the hang-up and leave by exit(N)
+    for how, cmd, want in (('callback', '''sh -c 'trap "" HUP INT; echo DONE; sleep 0.2; exit 7' ''', 7),
+                           ('timeout', '''sh -c 'trap "" HUP INT; echo READY; read x; exit 42' ''', 42)):
+        seen = {}
+
+        def stop(d):
+            seen['child'] = d['child']
+            return True
+        try:
+            if how == 'callback':
+                out, st = pexpect.run(cmd, withexitstatus=True, events=[('DONE', stop)], timeout=10)
+            else:
+                out, st = pexpect.run(cmd, withexitstatus=True, events=[(pexpect.TIMEOUT, stop)], timeout=1)
+        except Exception as e:
+            ctx.hit('C09/run', 'run(%r, withexitstatus=True) stopped by a %s raised %r' % (cmd, how, e), {'cmd': cmd, 'how': how})
+            return
+        tried += 1
+        child = seen.get('child')
+        if child is None or st != child.exitstatus or (child.exitstatus, child.signalstatus) != (want, None):
+            ctx.hit('C09/run', 'run(%r, withexitstatus=True) stopped by a %s returned status %r; the spawn object says exitstatus=%r signalstatus=%r; the child leaves by exit(%d)'
+                    % (cmd, how, st, getattr(child, 'exitstatus', '?'), getattr(child, 'signalstatus', '?'), want), {'cmd': cmd, 'how': how})
+            return
     ctx.oracle_stats['real_children'] = tried
+    # an application that ignores SIGCHLD (the kernel reaps by itself, pexpect cannot learn the fate): it may raise, but what it
+    # reports must not be invented.  Run in a process of its own (the disposition is process-wide).
+    import json
+    import subprocess
+    pr = subprocess.run([sys.executable, '-m', 'harness.sigchld_probe'], cwd=common.VERIF, stdout=subprocess.PIPE, stderr=subprocess.PIPE, timeout=120,
+                        env=dict(os.environ, PYTHONPATH=common.REPO))
+    try:
+        rows = json.loads(pr.stdout.decode().strip().splitlines()[-1])
+    except Exception:
+        ctx.hit('C09/sigchld-ignored', 'the probe did not finish: %r' % (pr.stderr.decode()[-400:],), {})
+        return
+    for fate, observer, res in rows:
+        want = (3, None) if fate == 'exit 3' else (0, None) if fate == 'exit 0' else (None, 15)
+        claims = res['terminated'] or res['exitstatus'] is not None or res['signalstatus'] is not None or 'wait' in res
+        if claims and ((res['exitstatus'], res['signalstatus']) != want or ('wait' in res and res['wait'] != want[0])):
+            ctx.hit('C09/sigchld-ignored', 'the application ignores SIGCHLD; child fate %s observed by %s: pexpect reports %r' % (fate, observer, res),
+                    {'fate': fate, 'observer': observer})
+            return
+    ctx.oracle_stats['sigchld_ignored_observations'] = len(rows)
 
 
 def observe(ctx, c, how, fate, what):
